@@ -1,1 +1,19 @@
-fn main() {}
+mod c18;
+mod c19;
+mod common;
+mod lib_spec;
+
+fn main() {
+    let args: Vec<String> = std::env::args().skip(1).collect();
+    let Some(prop) = args.first().cloned() else {
+        mc_core::machinery_error("usage: mc-env <Cxx> quick|thorough|--replay <file>");
+    };
+    mc_core::quiet_panics();
+    let rest = &args[1..];
+    match prop.as_str() {
+        "C18" => c18::run(rest),
+        "C19" => c19::run(rest),
+        "C20" => mc_core::machinery_error("C20 is not served by this build of mc-env (the registry check lives in another crate)"),
+        _ => mc_core::machinery_error(&format!("mc-env does not serve {prop}")),
+    }
+}
